@@ -434,4 +434,71 @@ theorem simDoc_length : (a b : BDoc) → SimDoc a b → (vals a).length = (vals 
       omega
 end
 
+/-! ### what the base collector hands to `getPayload` -/
+
+mutual
+theorem simVal_types : (a b : BVal) → SimVal a b → (extractVal a).map (·.2) = (extractVal b).map (·.2)
+  | .doc x, b, h => by
+    cases b with
+    | doc y => simpa [extractVal] using simDoc_types x y (by simpa [SimVal] using h)
+    | _ => simp [SimVal] at h
+  | .arr x, b, h => by
+    cases b with
+    | arr y => simpa [extractVal] using simDoc_types x y (by simpa [SimVal] using h)
+    | _ => simp [SimVal] at h
+  | .double _, b, h => by cases b <;> simp [SimVal] at h <;> simp [extractVal]
+  | .bool _, b, h => by cases b <;> simp [SimVal] at h <;> simp [extractVal]
+  | .datetime _, b, h => by cases b <;> simp [SimVal] at h <;> simp [extractVal]
+  | .int32 _, b, h => by cases b <;> simp [SimVal] at h <;> simp [extractVal]
+  | .timestamp _ _, b, h => by cases b <;> simp [SimVal] at h <;> simp [extractVal]
+  | .int64 _, b, h => by cases b <;> simp [SimVal] at h <;> simp [extractVal]
+  | .other _ _, b, h => by cases b <;> simp [SimVal] at h <;> simp [extractVal]
+theorem simDoc_types : (a b : BDoc) → SimDoc a b → (extractDoc a).map (·.2) = (extractDoc b).map (·.2)
+  | .nil, b, h => by cases b <;> simp [SimDoc] at h <;> simp [extractDoc]
+  | .cons k v r, b, h => by
+    cases b with
+    | nil => simp [SimDoc] at h
+    | cons k' v' r' =>
+      obtain ⟨_, hv, hr⟩ : k = k' ∧ SimVal v v' ∧ SimDoc r r' := by simpa [SimDoc] using h
+      simp only [extractDoc, List.map_append, simVal_types v v' hv, simDoc_types r r' hr]
+end
+
+/-- the base collector after the reference document `d0` and the documents `pre` -/
+def Holds (n : Nat) (d0 : BDoc) (pre : List BDoc) (c : Better) : Prop :=
+  c.ref = some d0 ∧ c.first = vals d0 ∧ c.rows = pre.map vals ∧ c.metadata = none ∧ c.maxDeltas = n ∧
+  c.startedAt = tsDoc d0 ∧ c.last.map (·.2) = (extractDoc d0).map (·.2)
+
+theorem better_adds_from (n : Nat) (d0 : BDoc) : ∀ (ds pre : List BDoc) (c : Better), Holds n d0 pre c →
+    pre.length + ds.length ≤ n → (∀ d ∈ ds, SimDoc d0 d) →
+    Holds n d0 (pre ++ ds) (ds.foldl (fun (c : Better) d => (c.add d).1) c) := by
+  intro ds
+  induction ds with
+  | nil => intro pre c h _ _; simpa using h
+  | cons d ds ih =>
+    intro pre c h hl hs
+    obtain ⟨h1, h2, h3, h4, h5, h6, h7⟩ := h
+    have hsd := hs d (List.mem_cons_self ..)
+    have hty := simDoc_types d0 d hsd
+    have hlen : (extractDoc d).length = c.last.length := by
+      have a := congrArg List.length hty
+      have b := congrArg List.length h7
+      simp at a b; omega
+    have hroom : ¬ c.rows.length ≥ c.maxDeltas := by
+      rw [h3, h5]; simp at hl ⊢; omega
+    have hstep : Holds n d0 (pre ++ [d]) (c.add d).1 := by
+      simp only [Better.add, h1, hroom, if_false, hlen, ne_eq, not_true_eq_false, h7, hty]
+      exact ⟨rfl, h2, by simp [h3, vals], h4, h5, h6, hty.symm⟩
+    have := ih (pre ++ [d]) (c.add d).1 hstep (by simp at hl ⊢; omega)
+      (fun x hx => hs x (List.mem_cons_of_mem _ hx))
+    simpa using this
+
+/-- adding documents of the first document's schema to a fresh base collector: all are accepted
+(while there is room) and the collector holds the first document as reference, its values as the
+first row and the values of the others as the rows -/
+theorem better_adds (n : Nat) (d0 : BDoc) (ds : List BDoc) (hl : ds.length ≤ n) (hs : ∀ d ∈ ds, SimDoc d0 d) :
+    Holds n d0 ds (ds.foldl (fun (c : Better) d => (c.add d).1) (({ maxDeltas := n } : Better).add d0).1) := by
+  have h0 : Holds n d0 [] (({ maxDeltas := n } : Better).add d0).1 := by
+    simp [Holds, Better.add, vals]
+  simpa using better_adds_from n d0 ds [] _ h0 (by simpa using hl) hs
+
 end Ftdc
